@@ -4,6 +4,8 @@ from lib import pv, sexp
 sys.path.insert(0, os.path.join(pv.ROOT, "gen"))
 import corpus, mutate
 
+import re
+PAREN_DECL_INIT = re.compile(r"\(\s*\**\s*\(*\s*\**\s*[A-Za-z_]\w*\s*\)*\s*\)\s*(\[[^\]]*\]\s*)*=[^=]")
 AMBIG = ("AmbiguousCastOrBinaryExpression", "AmbiguousTypeNameOrExpressionAsTypeReference", "AmbiguousCallOrVariableDeclaration", "AmbiguousMultiplicationOrPointerDeclaration")
 
 
@@ -113,8 +115,20 @@ def run(chk, only=None):
         inputs.append((0, "\n".join(rng.choice(tus) for _ in range(rng.randint(2, 6)))))
     import random as _random
     import cgen, ambig
+    gnu_texts = set()
     for _i in range(100 if quick else 2000):
-        inputs.append((0, cgen.G(_random.Random(rng.getrandbits(40)), gnu=(_i % 3 == 0)).unit()))
+        g_ = cgen.G(_random.Random(rng.getrandbits(40)), gnu=(_i % 3 == 0))
+        u_ = g_.unit()
+        inputs.append((0, u_))
+        if g_.gnu:
+            gnu_texts.add(u_)
+    # __extension__ in front of declarations and expressions of every shape (the keyword is a child inherited from the base class), and parenthesised declarators with initializers
+    for u_ in ["__extension__ int k = 2;", "__extension__ typedef long long ll_t; ll_t v;", "struct s { __extension__ int b; __extension__ union { int c; }; };",
+               "void f(int k) { __extension__ int j = 1; k = __extension__ (k + 1); k = __extension__ g(k, 1); __extension__ k++; k = __extension__ 1; for (__extension__ int i = 0; i < 2; ++i) ; }",
+               "int r = __extension__ ({ int t = 1; t; });", "__extension__ struct q { int a; } qq, *pq; __extension__ enum e { A, B } ee;", "__extension__ void h(void) { }",
+               "void f(void) { __extension__ __builtin_offsetof(struct s, a); x = __extension__ (int){ 1 }; y = __extension__ __real__ z; }"]:
+        inputs.append((0, u_)); gnu_texts.add(u_)
+    inputs += [(0, "int (x) = 1;"), (0, "int ((y)) = 2, (*z) = 0;"), (0, "void f(void) { int (a) = 1, (*b)[2] = 0, ((c))[1] = { 0 }; }"), (0, "int (*fp)(int) = 0, (g)(int);")]
     for _i in range(50 if quick else 1000):
         inputs.append((0, ambig.P(_random.Random(rng.getrandbits(40))).generate().text()))
     valid_n = len(inputs)
@@ -125,10 +139,11 @@ def run(chk, only=None):
     modes = [2, 0] if quick else [2, 0, 1, 3]
     if only:
         inputs, valid_n, modes = only, len(only), [2, 0, 1, 3]
+        gnu_texts = {t_ for _c, t_ in only if "__" in t_}
     reqs, meta = [], []
     for (c, t) in inputs:
         for dm in modes:
-            reqs.append("nodes %d 2:1:0:0:%d %s" % (c, dm, t.encode("utf-8", "replace").hex() if t else "-"))
+            reqs.append("nodes %d 2:1:%s:0:%d %s" % (c, "20003f" if t in gnu_texts else "0", dm, t.encode("utf-8", "replace").hex() if t else "-"))
             meta.append((c, t, dm))
     impl = pv.run_impl(reqs, shards=pv.NCPU, fork=False)
     parsed, mreqs = [], []
@@ -219,6 +234,11 @@ def run(chk, only=None):
         key = why + ":" + (det[0] if isinstance(det, tuple) and isinstance(det[0], str) else str(det)[:30] if why.startswith("visited") else "")
         if why.startswith("visited"):
             key = why + ":" + str(det)
+        # ONE known cause, identified by the construct: the initializer of a parenthesised declarator is attached to the innermost declarator
+        # ('int (x) = 1;' : the ParenthesizedDeclarator ends at ')' while its child runs to the end of the initializer), so the token slots of
+        # the parenthesised declarator and of every node above it are out of order
+        if why in ("slots-not-increasing", "extent-does-not-enclose") and PAREN_DECL_INIT.search(m[1]):
+            key = "initializer-attached-inside-parenthesised-declarator"
         if key in seen_keys:
             continue
         seen_keys.add(key)
